@@ -7,7 +7,7 @@ Same construction as `Mutiny/Model/CancelAll.lean` (which keeps the PINNED, unlo
 stream-id bookkeeping is model M6 (`Mutiny/Model/Multi.lean`: one step per access of `used_streams_count`, the vacant FIFO,
 the flags, `streams_lock` and every single entry of `used_streams`), plus the walker of `cancel_all_streams()`:
 
-* `lock`   (`sm.cancelall.lock` / `sync.spin`): `ogre_sync::lock(&self.streams_lock)` — waits while the flag is taken;
+* `lock` / `spin` (`sm.cancelall.lock` / `sync.spin`): `ogre_sync::lock(&self.streams_lock)` — waits while the flag is taken;
 * `read i` (`sm.cancelall.read`): reads entry `i`, stops at the sentinel or after `MAX_STREAMS` entries;
 * `cancel i id` (`sm.cancel`): clears the keep-running flag of `id` (the wake-up that follows is model M8's);
 * `unlock` (`sm.cancelall.unlock`): releases the flag.
@@ -20,8 +20,10 @@ open Mutiny
 /-- program points of the walker -/
 inductive WLoc where
   | idle
-  /-- about to take `streams_lock` (spins while it is held) -/
+  /-- `sm.cancelall.lock`: about to take `streams_lock` -/
   | lock
+  /-- `sync.spin`: the flag was taken; waiting for it -/
+  | spin
   /-- `sm.cancelall.read`: about to read entry `i` (lock held) -/
   | read (i : Nat)
   /-- `sm.cancel`: about to clear the flag of stream `id` (read from entry `i`; lock held) -/
@@ -51,7 +53,8 @@ def apply (s : St) : Act → St
   | .cancelAll => if s.w = .idle then { s with w := .lock } else s
   | .wstep =>
       match s.w with
-      | .lock => if s.m.slock then s else { s with m := { s.m with slock := true }, w := .read 0, seen := s.m.used }
+      | .lock | .spin =>
+          if s.m.slock then { s with w := .spin } else { s with m := { s.m with slock := true }, w := .read 0, seen := s.m.used }
       | .read i =>
           let id := s.m.used.getD i s.m.MAX
           if i ≥ s.m.MAX ∨ id = s.m.MAX then { s with w := .unlock } else { s with w := .cancel i id }
@@ -61,7 +64,8 @@ def apply (s : St) : Act → St
       | _ => s
 
 def run (s : St) (as : List Act) : St := as.foldl apply s
-def init (mx : Nat) : St := { m := Multi.init mx 8 .arc true, w := .idle, cancelled := [], seen := [] }
+def mk (m : Multi.St) : St := { m := m, w := .idle, cancelled := [], seen := [] }
+def init (mx : Nat) : St := mk (Multi.init mx 8 .arc true)
 
 /-- the entries a walk starting at entry `i` of `used` visits: up to the sentinel `mx`, at most `mx` entries in all -/
 def walkFrom (used : List Nat) (mx i : Nat) : List Nat := ((used.drop i).take (mx - i)).takeWhile (· ≠ mx)
